@@ -72,3 +72,20 @@ Definition mstep (c : config) (o : mop) : config :=
   end.
 (* the physical inputs: everything except the nominal height given to the borehole setter *)
 Definition physical (c : config) := (c_fluid c, c_grout c, c_soil c, c_pipe c, option_map snd (c_borehole c), c_sim c, c_loads c, c_geom c, c_design c).
+
+(* ---------- the manager with its design object ----------
+   set_design hands the manager's CURRENT input objects to a new design object; the other setters REPLACE the manager's objects (they do not
+   edit them), so the design object keeps what it was given until set_design is called again.  find_design searches and sizes with the
+   design object's inputs. *)
+Record mgr := { m_cfg : config; m_captured : option (option nat * option nat * option nat * option nat * option nat * option nat * option nat * option nat * option nat) }.
+Definition new_mgr : mgr := {| m_cfg := empty_config; m_captured := None |}.
+Definition gstep (m : mgr) (o : mop) : mgr :=
+  match o with
+  | SetDesign _ => let c' := mstep (m_cfg m) o in {| m_cfg := c'; m_captured := Some (physical c') |}
+  | FindDesign => m
+  | _ => {| m_cfg := mstep (m_cfg m) o; m_captured := m_captured m |}
+  end.
+Definition grun (m : mgr) (ops : list mop) : mgr := fold_left gstep ops m.
+(* what find_design works with (None: set_design was never called, find_design has no design object) *)
+Definition design_inputs (m : mgr) := m_captured m.
+Definition is_set_design (o : mop) : bool := match o with SetDesign _ => true | _ => false end.
